@@ -151,9 +151,23 @@ class IntMode:
         a, b = iv(a), iv(b)
         if op == '+':
             hi = a.hi + b.hi
+            bvs = (a.bv + b.bv) if a.bv is not None and b.bv is not None else None
             if hi >= W:
-                raise Unsupported('integer mode: wrapping addition with possible overflow')
-            return IV(a.t + b.t, a.lo + b.lo, hi, (a.bv + b.bv) if a.bv is not None and b.bv is not None else None)
+                # Go's + wraps: a + b == s + 2^64*k with the carry k lost
+                s = self.word('wsum')
+                s.bv = bvs if bvs is not None else s.bv
+                k = self.fresh('wcarry', 0, hi // W)
+                self.eqs.append(a.t + b.t == s.t + W * k.t)
+                return s
+            return IV(a.t + b.t, a.lo + b.lo, hi, bvs)
+        if op == '-':
+            lo, hi = a.lo - b.hi, a.hi - b.lo
+            if lo < 0:
+                d = self.word('wdiff')
+                k = self.fresh('wborrow', 0, 1)
+                self.eqs.append(a.t - b.t == d.t - W * k.t)
+                return d
+            return IV(a.t - b.t, lo, hi, (a.bv - b.bv) if a.bv is not None and b.bv is not None else None)
         if op == '&':
             if isinstance(a.t, int):
                 a, b = b, a
